@@ -376,6 +376,11 @@ func TestVerif_C07_States(t *testing.T) {
 		t.Fatal("harness: no behaviours")
 	}
 	worlds := map[int]*c07World{}
+	probeTables := map[string][]kit.V{}
+	for _, pt := range kit.LoadCases(t, "probes.ndjson") {
+		probeTables[fmt.Sprintf("%d/%s", pt.Get("n").Int(), pt.Get("excluded").JSON())] = pt.Get("probes").List()
+	}
+	probed := map[string]int{}
 	for bi, b := range behs {
 		n := b.Get("n").Int()
 		w := worlds[n]
@@ -390,12 +395,21 @@ func TestVerif_C07_States(t *testing.T) {
 					rep.Diverge(key+":panic", fmt.Sprintf("the key generation states panicked: %v", r), nil, nil, fmt.Sprint(r))
 				}
 			}()
-			c07ReplayStates(t, rep, w, b, key, bi)
+			pk := fmt.Sprintf("%d/%s", n, b.Get("excluded").JSON())
+			var probes []kit.V
+			if probed[pk] < kit.IntEnv("VERIF_PROBED_BEHAVIOURS", 3) {
+				probes = probeTables[pk]
+				if len(probes) == 0 {
+					t.Fatalf("harness: no probe table for %s", pk)
+				}
+				probed[pk]++
+			}
+			c07ReplayStates(t, rep, w, b, key, bi, probes)
 		}()
 	}
 }
 
-func c07ReplayStates(t *testing.T, rep *kit.Report, w *c07World, b kit.V, key string, bi int) {
+func c07ReplayStates(t *testing.T, rep *kit.Report, w *c07World, b kit.V, key string, bi int, probes []kit.V) {
 	excluded := b.Get("excluded").Ints()
 	members := map[int]*c07Member{}
 	var seq uint64
@@ -491,34 +505,7 @@ func c07ReplayStates(t *testing.T, rep *kit.Report, w *c07World, b kit.V, key st
 			if mses == "old" {
 				session = c07SessionOld
 			}
-			var payload net.TaggedMarshaler
-			if src := members[ms]; src != nil && src.real[mt] != nil {
-				payload = src.real[mt]
-				if mses == "old" || kind == "forged" {
-					payload = c07Rewrite(payload, ms, session)
-				}
-			} else if mt == 1 {
-				// an ephemeral key message of a member that has not produced one: take any real one and rewrite the sender
-				for _, other := range members {
-					if other.real[1] != nil {
-						payload = c07Rewrite(other.real[1], ms, session)
-						break
-					}
-				}
-				if payload == nil {
-					tmp := c07Start(w, ms, excluded)
-					if err := tmp.cur.Initiate(context.Background()); err != nil {
-						t.Fatalf("harness: %v", err)
-					}
-					payload = c07Rewrite(tmp.sink.sent[0], ms, session)
-				}
-			} else {
-				var err error
-				payload, err = c07Standin(mt, ms, session, m.Get("ctx").Ints(), w.n)
-				if err != nil {
-					t.Fatalf("%v", err)
-				}
-			}
+			payload := c07Payload(t, w, members, excluded, mt, ms, session, mses == "old" || kind == "forged", m.Get("ctx").Ints())
 			seq++
 			nm, err := c07Wire(payload, w.keys[mk], seq)
 			if err != nil {
@@ -580,6 +567,11 @@ func c07ReplayStates(t *testing.T, rep *kit.Report, w *c07World, b kit.V, key st
 			}
 		}
 		rep.Count("steps", 1)
+		if probes != nil && (a == "Start" || a == "Transition") && !mem.done {
+			if !c07Probe(t, rep, w, members, excluded, mem, probes, key, where, &seq) {
+				return
+			}
+		}
 	}
 	nt := ""
 	if len(excluded) > 0 && (kinds["forged"] || kinds["intruder"]) {
@@ -597,6 +589,75 @@ func c07ReplayStates(t *testing.T, rep *kit.Report, w *c07World, b kit.V, key st
 		rep.Count("behaviours_with_duplicate", 1)
 	}
 	rep.Eval(nt, sample)
+}
+
+
+// c07Payload builds the protocol message (t, s) as it would be on the wire:
+// the sender's own message if it produced one (rewritten for another session /
+// as forged traffic), a real ephemeral key message, or a stand-in.
+func c07Payload(t *testing.T, w *c07World, members map[int]*c07Member, excluded []int, mt, ms int, session string, rewrite bool, ctx []int) net.TaggedMarshaler {
+	if src := members[ms]; src != nil && src.real[mt] != nil {
+		if rewrite {
+			return c07Rewrite(src.real[mt], ms, session)
+		}
+		return src.real[mt]
+	}
+	if mt == 1 {
+		// an ephemeral key message of a member that has not produced one: take any real one and rewrite the sender
+		for _, other := range members {
+			if other.real[1] != nil {
+				return c07Rewrite(other.real[1], ms, session)
+			}
+		}
+		tmp := c07Start(w, ms, excluded)
+		if err := tmp.cur.Initiate(context.Background()); err != nil {
+			t.Fatalf("harness: %v", err)
+		}
+		return c07Rewrite(tmp.sink.sent[0], ms, session)
+	}
+	payload, err := c07Standin(mt, ms, session, ctx, w.n)
+	if err != nil {
+		t.Fatalf("%v", err)
+	}
+	return payload
+}
+
+// c07Probe delivers every message of the specification's probe table addressed
+// to member i to the member's CURRENT real state and compares admission with
+// the specification's Admit predicate (the table holds the whole injected
+// alphabet: kinds x message types x senders). Rejected messages leave no trace,
+// so the probe does not disturb the replay.
+func c07Probe(t *testing.T, rep *kit.Report, w *c07World, members map[int]*c07Member, excluded []int, mem *c07Member, probes []kit.V, key, where string, seq *uint64) bool {
+	for _, pr := range probes {
+		if pr.Get("i").Int() != mem.id || pr.Get("admit").Bool() {
+			continue
+		}
+		m := pr.Get("m")
+		mt, ms, mk, mses := m.Get("t").Int(), m.Get("s").Int(), m.Get("k").Int(), m.Get("ses").Str()
+		session := c07SessionCur
+		if mses == "old" {
+			session = c07SessionOld
+		}
+		payload := c07Payload(t, w, members, excluded, mt, ms, session, true, m.Get("ctx").Ints())
+		*seq++
+		nm, err := c07Wire(payload, w.keys[mk], *seq)
+		if err != nil {
+			t.Fatalf("harness: probe: %v", err)
+		}
+		_, before := c07History(w, mem.base)
+		if err := mem.cur.Receive(nm); err != nil {
+			rep.Diverge(key+":receive", fmt.Sprintf("%s: Receive returned an error for an injected message: %v", where, err), pr.X, nil, err.Error())
+			return false
+		}
+		_, now := c07History(w, mem.base)
+		rep.Count("probes", 1)
+		if now != before {
+			rep.Diverge(key+":admission", fmt.Sprintf("%s: state %d (%T) admitted an injected message the specification rejects: type %d, claimed sender %d, envelope key of seat %d, session %s",
+				where, c07StateIndex(mem.cur), mem.cur, mt, ms, mk, mses), pr.X, "rejected", "admitted")
+			return false
+		}
+	}
+	return true
 }
 
 // ---------------------------------------------------------------- real Execute over a scheduled channel
@@ -670,8 +731,15 @@ func (h *c07Hub) deliver(i int, m net.TaggedMarshaler, key []byte) (bool, error)
 	if err != nil {
 		return false, err
 	}
-	hd(nm)
-	return true, nil
+	// the machine's receive buffer is large; should a member stop draining it the harness must not block with it
+	doneCh := make(chan struct{})
+	go func() { hd(nm); close(doneCh) }()
+	select {
+	case <-doneCh:
+		return true, nil
+	case <-time.After(20 * time.Second):
+		return false, nil
+	}
 }
 
 type c07ExecOut struct {
